@@ -264,6 +264,7 @@ func vJoin() {
 	vThreads = nil
 }
 
+func vLiveThreads() int { return 1 }
 func vThreadID() int  { return 0 }
 func vHeldLocks() int { return 0 }
 
